@@ -248,6 +248,11 @@ def coefficient_variants():
 
 
 def cases(tier, seed):
+    from .. import produced
+    return _cases(tier, seed) + produced.case_list()
+
+
+def _cases(tier, seed):
     out = []
     n = len(space.U0())
     for i0 in range(0, n, 8):
@@ -274,6 +279,9 @@ def cases(tier, seed):
 
 
 def run_case(case, R):
+    if case.get("k") == "produced":
+        from .. import produced
+        return produced.run(R, ID, case["i0"], case["i1"])
     k = case["k"]
     if k == "u0":
         for i in range(case["i0"], case["i1"]):
